@@ -45,9 +45,11 @@ FILES = ["index.txt", "a.txt", "dir/b.txt", "includes/shared.rst", "includes/ste
 
 
 def mk_diag(cls_name, line, tag):
+    """a real Diagnostic object; the message depends on the line only, so two different objects of one class on
+    one line compare equal (`Diagnostic.__eq__`) while remaining different objects"""
     cls = getattr(sd, cls_name)
     d = cls.__new__(cls)
-    Diagnostic.__init__(d, f"t{tag}", line)
+    Diagnostic.__init__(d, f"m{line}", line)
     return d
 
 
@@ -318,14 +320,16 @@ def run_e2e(case):
             project.build()
         except Exception as e:
             return {"exc": f"{type(e).__name__}: {str(e)[:200]}"}
-        # tag table: one tag per distinct (class, line, message)
-        tags = {}
+        # tag table: one tag per Diagnostic OBJECT (identity; every recorded list still references the objects)
+        tags, info, keep = {}, {}, []
 
         def w(d):
-            key = (type(d).__name__, d.start[0], strip_root(d.message, root))
-            if key not in tags:
-                tags[key] = len(tags)
-            return {"c": key[0], "l": max(0, key[1]), "s": int(d.severity), "t": tags[key], "rl": key[1]}
+            if id(d) not in tags:
+                tags[id(d)] = len(tags)
+                keep.append(d)
+                info[tags[id(d)]] = (type(d).__name__, d.start[0], strip_root(d.message, root))
+            key = info[tags[id(d)]]
+            return {"c": key[0], "l": max(0, key[1]), "s": int(d.severity), "t": tags[id(d)], "rl": key[1]}
 
         res = {
             "exc": None,
@@ -338,7 +342,7 @@ def run_e2e(case):
             "silence": silence, "fail": fail,
             "total_errors": backend.total_errors, "total_diagnostics": backend.total_diagnostics,
         }
-        res["messages"] = {str(t): list(k) for k, t in tags.items()}
+        res["messages"] = {str(t): list(k) for t, k in info.items()}
         code, printed = run_main_inprocess(root)
         res["exit"] = code
         res["printed"] = [[p, sev, start, strip_root(m, root)] for p, sev, start, m in printed]
@@ -372,15 +376,17 @@ class C14(core.PropertyCheck):
     parallel = False            # Project.build starts its own process pool
     quick_budget = 2000
     thorough_budget = 16000
-    rule = ("merge: random producer maps over 8 file ids x 10 real Diagnostic classes (1-3 outputs per source with equal, "
-            "prefix-related or unrelated lists; orphan keys inside/outside the parsed sources; 0-3 other maps with shared keys) "
+    rule = ("merge: random producer maps over 8 file ids x 10 real Diagnostic classes (1-3 outputs per source whose lists SHARE "
+            "Diagnostic objects: equal lists, shared prefix + per-output extras, sub-lists, unrelated lists, different objects that "
+            "compare equal, rarely one object twice in a list; orphan keys inside/outside the parsed sources; 0-3 other maps with shared keys) "
             "x random silence sets, through a real PageDatabase; walk: random Root/include trees of depth <= 4 through the real "
             "EventParser; e2e: projects of 2-5 pages + shared includes (included by 1-2 pages) + extracts/steps yaml files "
             "seeded with 1-9 faults out of 17 kinds x random subset of the seeded class names silenced x fail_on_diagnostics, "
             "plus one project per single fault kind and container. non-trivial = case with at least one diagnostic; "
             "distinct by content")
     assumptions = [
-        "a diagnostic is identified by (class name, start line, message with the temp directory masked); severity is the class attribute",
+        "a diagnostic is identified by the identity of its Python object (the model's oid); the fault oracle matches by (class name, start line); severity is the class attribute",
+        "theorem hypotheses checked on every e2e case: no stored list holds one object twice (OutputsNodup); output ids distinct; the postprocess result is a dict",
         "the iteration order of the key set in merge_diagnostics is a parameter of the model; results are compared as dicts (key order of the result is not part of the property)",
         "line of a fault inside yaml content: the parser reports it relative to the content block; the absolute line is accepted too. "
         "line of a fault in a snooty.toml substitution/banner value: line 0 of the value (what the parser reports) or the line in snooty.toml are accepted",
@@ -410,6 +416,15 @@ class C14(core.PropertyCheck):
                 except Exception:
                     bad.append(name)
         out.append(("every Diagnostic subclass has a class-level severity in {1,2,3}", not bad, str(bad[:5])))
+        try:
+            d0 = {"c": "CannotOpenFile", "l": 2, "s": 3, "t": 0}
+            r = core.run_driver([{"op": "c14.merge", "silence": [], "orphan": [], "others": [], "parsed": [
+                {"out": "includes/extracts/a.rst", "src": "includes/extracts-x.yaml", "ds": [d0]},
+                {"out": "includes/extracts/b.rst", "src": "includes/extracts-x.yaml", "ds": []}]}])[0]
+            ok = r.get("old") == [["includes/extracts-x.yaml", []]] and r.get("merged") == [["includes/extracts-x.yaml", [d0]]]
+            out.append(("model of the merge before the fix drops the witness of merge_conservation_refuted, the model of the fixed merge keeps it", ok, str(r)[:160]))
+        except core.Infra as e:
+            out.append(("old/fixed merge models on the refutation witness", False, str(e)))
         return out
 
     # ---- generation -------------------------------------------------------------------
@@ -431,12 +446,20 @@ class C14(core.PropertyCheck):
             base = self.gen_ds(rng, tagbox)
             mode = rng.random()
             for i in range(k):
-                if k == 1 or mode < 0.6:
+                # the same tag = the SAME Diagnostic object (source-level diagnostics are shared by all outputs)
+                if k == 1 or mode < 0.35:
                     ds = list(base)                               # equal lists (what the yaml domain yields)
-                elif mode < 0.8:
-                    ds = list(base) + self.gen_ds(rng, tagbox, 0, 2)   # own additions per output (pending tasks)
-                else:
+                elif mode < 0.7:
+                    ds = list(base) + self.gen_ds(rng, tagbox, 0, 2)   # own additions per output (page.finish)
+                    if base and rng.random() < 0.4:               # a different object that compares equal to a shared one
+                        tagbox[0] += 1
+                        ds.append({"c": base[0]["c"], "l": base[0]["l"], "t": tagbox[0]})
+                elif mode < 0.85:
                     ds = self.gen_ds(rng, tagbox)
+                else:
+                    ds = [d for d in base if rng.random() < 0.6] + self.gen_ds(rng, tagbox, 0, 1)  # a sub-list of the shared ones
+                if ds and rng.random() < 0.03:
+                    ds.append(ds[0])                              # one object twice in one list (never seen in a build)
                 parsed.append({"out": f if k == 1 else f"{f}#{i}", "src": f, "ds": ds})
         if rng.random() < 0.15 and parsed:       # an output written twice (update of a page)
             o = copy.deepcopy(rng.choice(parsed))
@@ -653,10 +676,13 @@ class C14(core.PropertyCheck):
         db = PageDatabase()
         objs = {}
 
+        by_tag = {}
+
         def mk(d):
-            o = mk_diag(d["c"], d["l"], d["t"])
-            objs[id(o)] = d["t"]
-            return o
+            if d["t"] not in by_tag:            # one tag = one object, shared by every list that names it
+                by_tag[d["t"]] = mk_diag(d["c"], d["l"], d["t"])
+                objs[id(by_tag[d["t"]])] = d["t"]
+            return by_tag[d["t"]]
 
         for o in case["parsed"]:
             src = FileId(o["src"])
@@ -753,6 +779,10 @@ class C14(core.PropertyCheck):
         return self.compare_e2e(impl)
 
     def compare_e2e(self, impl):
+        for o in impl["parsed"]:
+            ts = [d["t"] for d in o["ds"]]
+            if len(ts) != len(set(ts)):
+                return f"hypothesis OutputsNodup: the list stored for output {o['out']} holds one Diagnostic object twice"
         m = self.e2e_model(impl)
         if "error" in m:
             return f"driver error: {m['error']}"
@@ -805,19 +835,24 @@ class C14(core.PropertyCheck):
             rest = orphan.get(f, []) + [d["t"] for o in case["others"] for k, ds in o if k == f for d in ds]
             lists = by_src.get(f, [])
             got = merged[f]
-            union = Counter()
-            for l in lists:
-                union |= Counter(l)          # the same diagnostic carried by several outputs counts once
-            # nothing invented / filed elsewhere / duplicated
-            extra = Counter(got) - (Counter(rest) + union)
-            if extra:
-                return f"invented: {f}: diagnostics {sorted(extra)} in the merged list were not produced for this file (or duplicated)"
-            # nothing dropped: everything any producer reported for f is there
-            missing = (Counter(rest) + union) - Counter(got)
+            every = [t for l in lists for t in l]
+            first = []
+            for t in every:
+                if t not in first:
+                    first.append(t)
+            head = got[:len(got) - len(rest)] if rest else got
+            # nothing invented / filed elsewhere
+            extra = Counter(got) - (Counter(rest) + Counter(every))
+            if extra or set(head) - set(every):
+                return f"invented: {f}: diagnostics {sorted(extra) or sorted(set(head) - set(every))} in the merged list were not produced for this file"
+            # nothing dropped: every object of every output of the source, and everything orphan/others hold
+            missing = (set(every) - set(head)) | set((Counter(rest) - Counter(got)).keys())
             if missing:
-                if len(lists) > 1 and not (Counter(rest) - Counter(got)):
-                    return f"drop-multi-output: {f}: {len(lists)} outputs of one source carry different lists; merged keeps the last, diagnostics {sorted(missing)} are lost"
-                return f"dropped: {f}: diagnostics {sorted(missing)} produced for this file are missing from the merged list"
+                return f"dropped: {f}: diagnostics {sorted(missing)} produced for this file ({len(lists)} output(s)) are missing from the merged list"
+            if all(len(set(l)) == len(l) for l in lists):
+                # each object exactly once (the order of first appearance is compared with the model, not demanded here)
+                if Counter(head) != Counter(first):
+                    return f"duplicated: {f}: parsed part is {head}, the outputs hold the objects {first} (each must appear once)"
             # order inside each source kept
             tail = got[len(got) - len(rest):] if rest else []
             if rest and tail != rest:
@@ -862,7 +897,7 @@ class C14(core.PropertyCheck):
             if live and not hits and not f.get("optional"):
                 seen_on = any(p == f["file"] and fault_matches(f, d) for p, ds, _ in impl["on"] for d in ds)
                 if seen_on:
-                    tag = "drop-multi-output" if n_outputs(case, f["file"]) > 1 else "dropped"
+                    tag = "dropped"
                     return (f"{tag}: seeded {f['kind']} (in {f['in']}) was delivered under {f['file']} through on_diagnostics "
                             f"but is not in the final set of {f['file']}")
                 near = [(d["c"], d["rl"]) for p, ds in impl["set"] for d in ds if d["c"] in f["classes"]]
@@ -886,8 +921,7 @@ class C14(core.PropertyCheck):
             for t in sorted(set(c_on) | set(c_fin)):
                 name = impl["messages"].get(str(t), ["?", "?", "?"])
                 if c_fin[t] == 0:
-                    tag = "drop-multi-output" if k > 1 else "dropped"
-                    return f"{tag}: {name[0]} line {name[1]} was delivered under {p} while parsing but is not in the final set of {p}"
+                    return f"dropped: {name[0]} line {name[1]} was delivered under {p} through on_diagnostics but is not in the final set of {p} ({k} output(s))"
                 if c_on[t] == 0:
                     return f"invented: {name[0]} line {name[1]} is in the final set of {p} but was never delivered for it"
                 if c_fin[t] > c_on[t]:
